@@ -29,7 +29,30 @@ def write_corpus(c, n):
         for e in exprs:
             f.write("        meta_type::<%s>(),\n" % G.rust(e))
         f.write("    ]\n}\n")
-    return len(exprs)
+    nb = write_builder_corpus(c, 4 * n)
+    return len(exprs), nb
+
+def write_builder_corpus(c, n):
+    """hand-written TypeInfo impls, one per complete legal call sequence of the builder automaton
+    (specs/MC_TypeBuilders.tla, compile-time form): every docs setter at every position of every builder"""
+    from checks import bldcommon as BC
+    from gen import builders as B
+    cases = [x for x in BC.explore(c, False, 3, "POS") if x["f"] == "M" and x["b"] in ("TB", "FS", "VS")]
+    cases.sort(key=lambda x: json.dumps(x, sort_keys=True))
+    step = max(1, len(cases) // n)
+    cases = cases[::step][:n]
+    L = ["mod genb {", "    use scale_info::{build::*, form::MetaForm, meta_type, MetaType, Path, Type, TypeInfo, TypeParameter};", "    pub struct W<const I: usize>;"]
+    for i, cs in enumerate(cases):
+        if cs["b"] == "TB": e = B.expr(cs)
+        else:
+            inner = B.expr(cs, upto=len(cs["calls"]) - 1)
+            e = 'Type::builder().path(Path::new("W", "genb")).%s(%s)' % ("composite" if cs["b"] == "FS" else "variant", inner)
+        L.append("    impl TypeInfo for W<%d> { type Identity = Self; fn type_info() -> Type { %s } }" % (i, e))
+    L.append("    pub fn all() -> Vec<MetaType> { vec![%s] }" % ", ".join("meta_type::<W<%d>>()" % i for i in range(len(cases))))
+    L.append("}")
+    with open(os.path.join(CORPUS_DIR, "gen_corpus.rs"), "a") as f:
+        f.write("\n".join(L) + "\nfn gen_builders() -> Vec<MetaType> { genb::all() }\n")
+    return len(cases)
 
 def build_and_run(cfgset):
     td = os.path.join(vlib.HARNESS, "target-fp" + ("-" + vlib.ALT if vlib.ALT else ""))
@@ -59,8 +82,9 @@ def run(tier, replay=None):
         if not ok: c.violation("replay", "fingerprints disagree", replay)
         return c.finish()
     thorough = tier == "thorough"
-    ncorpus = write_corpus(c, 600 if thorough else 250)
+    ncorpus, nbuild = write_corpus(c, 600 if thorough else 250)
     c.cov["generated_corpus_expressions"] = ncorpus
+    c.cov["generated_builder_sequences"] = nbuild
     # the configuration space is the specification's: TLC enumerates SUBSET Feats
     g = vlib.tlc("Features", "Gen_Features.cfg", wd, workers=1)
     allcfg = g.lines("CONFIGS")
@@ -91,7 +115,7 @@ def run(tier, replay=None):
         rp = c.replay_file("fingerprints.ndjson", "\n".join(json.dumps(e) for e in (first, bad)) + "\n")
         c.violation("features", "metadata differs between feature sets %s and %s beyond documentation strings" % (first["cfg"], bad["cfg"]), rp)
     c.cov["exhaustive"] = thorough
-    c.cov["rule"] = "one real build of the fingerprint binary (harness/fp: ~40 built-in and derived types, generic, recursive, documented, all capture_docs modes, replace_segment, skipped parameters, associated types, 20-tuple; BitVec sub-corpus under bit-vec) per feature selection (%d selections), fingerprints = hex of encode(PortableRegistry) with and without docs; the Features acceptor requires pairwise agreement" % len(evs)
+    c.cov["rule"] = "one real build of the fingerprint binary (harness/fp: ~40 built-in and derived types, generic, recursive, documented, all capture_docs modes, replace_segment, skipped parameters, associated types, 20-tuple; the same documented struct / tuple struct / enum under every capture_docs mode; a TLC-enumerated corpus of built-in type expressions; one hand-written TypeInfo impl per complete legal call sequence of the builder automaton, i.e. every docs setter at every position; BitVec sub-corpus under bit-vec) per feature selection (%d selections), fingerprints = hex of encode(PortableRegistry) with and without docs; the Features acceptor requires pairwise agreement" % len(evs)
     c.assumptions += ["the specification contributes the configuration space and the acceptance relation; the deciding evidence is one real build per configuration"]
     return c.finish()
 
